@@ -136,23 +136,30 @@ def natOf (t : Bytes) : Nat := t.foldl (fun a b => a * 10 + (b.toNat - 48)) 0
 /-- int = zero / ( digit1-9 *DIGIT ) -/
 def IntPart (t : Bytes) : Prop := t = [48] ∨ (Digits t ∧ t.head? ≠ some 48)
 
-/-- number = [ minus ] int [ frac ] [ exp ]  (§6), with the exact decimal it denotes.
-`fp = []` means "no frac"; `ex = none` means "no exp", otherwise
-`(e or E, optional sign with true = minus, digits)`. -/
+/-- [ minus ] -/
+def minusText (neg : Bool) : Bytes := if neg then [45] else []
+/-- [ frac ]:  `fp = []` means "no frac", otherwise decimal-point 1*DIGIT -/
+def fracText (fp : Bytes) : Bytes := if fp = [] then [] else 46 :: fp
+/-- [ exp ]: `none` means "no exp", otherwise `(e or E, optional sign with true = minus, digits)` -/
+def expText (ex : Option (UInt8 × Option Bool × Bytes)) : Bytes :=
+  match ex with
+  | none => []
+  | some (e, sg, ep) => e :: ((match sg with | none => [] | some true => [45] | some false => [43]) ++ ep)
+/-- the power of ten the exp part denotes -/
+def expVal (ex : Option (UInt8 × Option Bool × Bytes)) : Int :=
+  match ex with
+  | none => 0
+  | some (_, some true, ep) => - (natOf ep : Int)
+  | some (_, _, ep) => (natOf ep : Int)
+
+/-- number = [ minus ] int [ frac ] [ exp ]  (§6), with the exact decimal it denotes:
+`(-1)^neg · natOf(int frac-digits) · 10^(exp − number of frac digits)`. -/
 inductive Number : Bytes → Dec → Prop
   | mk (neg : Bool) (ip fp : Bytes) (ex : Option (UInt8 × Option Bool × Bytes)) :
       IntPart ip → (fp = [] ∨ Digits fp) →
       (∀ e sg ep, ex = some (e, sg, ep) → (e = 101 ∨ e = 69) ∧ Digits ep) →
-      Number
-        ((if neg then [45] else []) ++ ip ++ (if fp = [] then [] else 46 :: fp) ++
-          (match ex with
-           | none => []
-           | some (e, sg, ep) => e :: ((match sg with | none => [] | some true => [45] | some false => [43]) ++ ep)))
-        ⟨neg, natOf (ip ++ fp),
-          (match ex with
-           | none => 0
-           | some (_, some true, ep) => - (natOf ep : Int)
-           | some (_, _, ep) => (natOf ep : Int)) - (fp.length : Int)⟩
+      Number (minusText neg ++ ip ++ fracText fp ++ expText ex)
+        ⟨neg, natOf (ip ++ fp), expVal ex - (fp.length : Int)⟩
 
 def IsHex (b : UInt8) : Prop :=
   (48 ≤ b.toNat ∧ b.toNat ≤ 57) ∨ (65 ≤ b.toNat ∧ b.toNat ≤ 70) ∨ (97 ≤ b.toNat ∧ b.toNat ≤ 102)
